@@ -297,6 +297,7 @@ func runC02(c *Ctx) {
 
 func runC04(c *Ctx) {
 	u, r := c.U, c.R
+	seedfixC04(c)
 	r.Floor("R-REQID", 8)
 	if fn := c.Fn("R-UNARY-ORDER", "(*Server).serveUnary"); fn != nil {
 		// error path: after writeErrorBatch no log write and no result write reachable
@@ -837,6 +838,7 @@ func runC10(c *Ctx) {
 
 func runC36(c *Ctx) {
 	u, r := c.U, c.R
+	seedfixC36(c)
 	r.Floor("R-FREE-PAIR", 2)
 	for _, name := range []string{"(*Server).serveOne", "(*Server).serveStream"} {
 		fn := c.Fn("R-FREE-PAIR", name)
